@@ -71,7 +71,33 @@ def second_use(gb, basis, call, violations, label, rtol=1e-10):
     return n
 
 
-def instance_reuse(gb, basis, modname, clsname, violations, label, rtol=1e-12, **kw):
+def neighbour_first(gb, basis, call):
+    """Evaluate a NEIGHBOURING geometry first (first shell displaced by 5e-7 bohr, its exponents scaled by 1 + 5e-7: a
+    finite-difference step) and discard the result.  The case itself is computed and judged afterwards: a memo whose key
+    rounds coordinates or exponents hands the neighbour's integrals to the case, which then differ from the oracle."""
+    shells = gb.make_basis(basis)
+    s0 = shells[0]
+    s0.coord = np.array(s0.coord, dtype=float) + np.array([2.0 ** -21, 0.0, -2.0 ** -22])
+    s0.exps = np.array(s0.exps, dtype=float) * (1.0 + 2.0 ** -21)
+    s0.assign_norm_cont()
+    try:
+        call(shells)
+    except Exception:  # noqa: BLE001     judged on the case itself, not here
+        pass
+
+
+def results_kept(earlier, violations, label):
+    """Arrays returned by earlier calls must not change when later calls are made (a result that is a view of an internal
+    buffer or of a cache entry is overwritten by the next request)."""
+    for what, arr, copy in earlier:
+        if arr.shape != copy.shape or not np.array_equal(arr, copy, equal_nan=True):
+            violations.append({"check": label + " (aliasing)", "message": "%s: the array returned by %s changed when a later request was made "
+                               "(it shares memory with an internal buffer)" % (label, what)})
+            return False
+    return True
+
+
+def instance_reuse(gb, basis, modname, clsname, violations, label, rtol=1e-12, kw2=None, **kw):
     """One integral object asked more than once (cartesian, mix, mix again, lincomb) against fresh objects."""
     cls = getattr(gb.mod(modname), clsname)
     shells = gb.make_basis(basis)
@@ -89,11 +115,20 @@ def instance_reuse(gb, basis, modname, clsname, violations, label, rtol=1e-12, *
         return ok
 
     first = inst.construct_array_mix(types, **kw)
-    if not judge(inst.construct_array_mix(types, **kw), first, "the second construct_array_mix of one object"):
+    held = [("the first construct_array_mix", first, first.copy())]
+    second = inst.construct_array_mix(types, **kw)
+    if not judge(second, held[0][2], "the second construct_array_mix of one object"):
         return n
-    if not judge(inst.construct_array_cartesian(**kw), cls(gb.make_basis(basis)).construct_array_cartesian(**kw),
+    cart = inst.construct_array_cartesian(**kw)
+    held.append(("construct_array_cartesian", cart, cart.copy()))
+    if not judge(cart, cls(gb.make_basis(basis)).construct_array_cartesian(**kw),
                  "construct_array_cartesian after construct_array_mix on one object"):
         return n
+    if kw2 is not None:
+        cart2 = inst.construct_array_cartesian(**kw2)         # same shape, other arguments
+        judge(cart2, cls(gb.make_basis(basis)).construct_array_cartesian(**kw2), "construct_array_cartesian with other arguments on one object")
     judge(inst.construct_array_spherical(**kw), cls(gb.make_basis(basis)).construct_array_spherical(**kw),
-          "construct_array_spherical after two other requests on one object")
+          "construct_array_spherical after other requests on one object")
+    n += 1
+    results_kept(held, violations, label)
     return n
